@@ -127,6 +127,15 @@ def run(ctx):
             "the return of base58check_decode is not dominated by `decoded[-4:] == SHA256d(decoded[:-4])[:4]`",
             example="a string with a corrupted or too-short checksum")
     R.check("C07.2", "DOM", fcd, "mismatch raises", any(e.kind == "raise" for e in s.exits), "a checksum mismatch does not raise")
+    # the only refusal is the checksum: with 4 (empty payload), 5, ... decoded bytes an accepting path exists
+    for L in (4, 5, 6, 25, 40):
+        evo.bind = {tm.length(dec): L}
+        sm = evo.run(fcd)
+        acc = [e for e in sm.returns() if tm.land(list(e.guard)) is not False]
+        R.check("C07.2", "DECISION-TABLE", fcd, "a string that decodes to %d bytes (payload of %d) is accepted when its checksum matches" % (L, L - 4), bool(acc),
+                "base58check_decode refuses every string that decodes to %d bytes (payload of %d bytes), whatever its checksum" % (L, L - 4),
+                example="base58check(b'') = 3QJmnh" if L == 4 else "a %d-byte payload" % (L - 4))
+    evo.bind = {}
     # ---- classifier
     fi = ctx.fn(B58 + "is_base58check")
     s = ev.run(fi)
